@@ -190,8 +190,8 @@ def _worker(args):
 def props_records(base):
     """A store created by the client opens through the API with the same properties, and
     vice versa."""
-    import hashstore.hashstoreclient as cli
     fhs, _ = load_hashstore()
+    import hashstore.hashstoreclient as cli
     recs = []
     os.makedirs(base, exist_ok=True)
     for (d, w, algo, ns) in [(3, 2, "SHA-256", NS), (1, 4, "MD5", OTHER_FMT), (5, 1, "SHA-512", NS)]:
